@@ -111,6 +111,7 @@ def _main(a, prop, seed, mod, tier, work, t_start, compile_s) -> int:
     mrng = random.Random(f"{seed}/hashseeds")
     hashseeds = [mrng.randrange(1, 2 ** 32 - 1) for _ in range(N_LANES)]
     n_echo = int(tier.get("n_echo", 8))
+    n_echo_b = int(tier.get("n_echo_b", n_echo))
     lanes = []
     for k in range(N_LANES):
         seeds = [base + i for i in range(runs) if i % N_LANES == k]
@@ -118,10 +119,10 @@ def _main(a, prop, seed, mod, tier, work, t_start, compile_s) -> int:
             continue
         cfg = {"lane": k, "hashseed": hashseeds[k], "seeds": seeds, "gen": tier.get("gen", {}),
                "soft_deadline_s": tier.get("soft_deadline_s", 600), "hard_timeout_s": tier.get("hard_timeout_s", 1800),
-               "n_echo": n_echo if k == 0 else 0}
+               "n_echo": max(n_echo, n_echo_b) if k == 0 else 0}
         lanes.append((f"lane{k}", cfg))
-    echo_seeds = lanes[0][1]["seeds"][:n_echo]
-    for name, hs in (("echoA", hashseeds[0]), ("echoB", hashseeds[1 % N_LANES])):
+    for name, hs, ne in (("echoA", hashseeds[0], n_echo), ("echoB", hashseeds[1 % N_LANES], n_echo_b)):
+        echo_seeds = lanes[0][1]["seeds"][:ne]
         lanes.append((name, {"lane": name, "hashseed": hs, "seeds": echo_seeds, "gen": tier.get("gen", {}),
                              "soft_deadline_s": 1e9, "hard_timeout_s": tier.get("hard_timeout_s", 1800),
                              "echo_only": True}))
@@ -207,6 +208,7 @@ def _main(a, prop, seed, mod, tier, work, t_start, compile_s) -> int:
         return 2
     # ---- determinism sample (same seeds: same hash seed twice => same log; other hash seed => same scenario)
     det_checked = 0
+    cross_violations = []
     main0 = {d["seed"]: d for d in records["lane0"]}
     for d in records["echoA"]:
         m = main0.get(d["seed"])
@@ -225,6 +227,9 @@ def _main(a, prop, seed, mod, tier, work, t_start, compile_s) -> int:
             log(f"HARNESS-ERROR: generator depends on PYTHONHASHSEED: seed {d['seed']}: {m['scen']} vs {d['scen']}")
             return 2
         if getattr(mod, "LOG_HASHSEED_INDEPENDENT", False) and (m["log"], m["verdict"]) != (d["log"], d["verdict"]):
+            if getattr(mod, "CROSS_HASHSEED_IS_VIOLATION", False) and m["verdict"] == "ok" and d["verdict"] == "ok":
+                cross_violations.append(d["seed"])
+                continue
             log(f"HARNESS-ERROR: event log depends on PYTHONHASHSEED: seed {d['seed']}")
             return 2
     # ---- aggregate reach
@@ -284,6 +289,26 @@ def _main(a, prop, seed, mod, tier, work, t_start, compile_s) -> int:
         out_lines.append(f"VIOLATION property={prop} replay={path}")
         log(f"  signature: {sig} (not minimised: report cap) seed: {d['seed']}")
         exit_code = 1
+    # ---- results that differ between two interpreters with different PYTHONHASHSEED (C19 I3)
+    if cross_violations:
+        sd = cross_violations[0]
+        scn = mod.generate(sd, tier.get("gen", {}))
+        scn["hashseed"] = hashseeds[0]
+        os.makedirs(os.path.join(REPLAYS, prop), exist_ok=True)
+        path = os.path.join(REPLAYS, prop, f"cross-hashseed-{sd}.json")
+        sig = [prop, "cross-process", "result-depends-on-PYTHONHASHSEED"]
+        with open(path, "w") as f:
+            json.dump({"property": prop, "signature": sig, "scenario": scn,
+                       "cross_hashseed": [hashseeds[0], hashseeds[1 % N_LANES]]}, f, indent=1, sort_keys=True)
+        if "|".join(sig) in open_known:
+            known_matched["|".join(sig)] = len(cross_violations)
+        else:
+            out_lines.append(f"VIOLATION property={prop} replay={path}")
+            log(f"  signature: {'|'.join(sig)}\n  seeds: {cross_violations[:8]} (per-operation result digests differ "
+                f"between PYTHONHASHSEED={hashseeds[0]} and {hashseeds[1 % N_LANES]})")
+            new_sigs.append("|".join(sig))
+            by_sig["|".join(sig)] = []
+            exit_code = 1
     # ---- known findings: each open entry is re-checked from its committed replay file on every run
     known_lines = []
     for e in known:
